@@ -159,6 +159,11 @@ func cmdCheck(args []string) int {
 	}
 	replayDir := filepath.Join(*verif, "replay", "out")
 	os.MkdirAll(replayDir, 0o755)
+	if old, _ := filepath.Glob(filepath.Join(replayDir, *prop+"_*")); len(old) > 0 {
+		for _, f := range old {
+			os.Remove(f) // replay files of earlier runs of this property
+		}
+	}
 	os.MkdirAll(filepath.Dir(*evOut), 0o755)
 
 	fail := func(obl, msg string) int {
